@@ -61,6 +61,8 @@ def show(x):
         fr = is_frozen(x)
         body = ','.join(f'{k}={show(x[k])}' for k in sorted(x))
         return ('<' + body + '>') if fr else ('{' + body + '}')
+    if not isinstance(x, (int, float, type(None))):
+        return f'O:{type(x).__name__}'          # an object that is no value of the domain (e.g. an unevaluated default factory)
     return f'A{atom_ty(x)}:{atom_id(x)}'
 
 
